@@ -17,7 +17,7 @@ pub static C17: SortP = SortP { by_row: false };
 impl SortP {
     /// (max length of the key line, max other dimension)
     fn bounds(&self, t: Tier) -> (usize, usize) {
-        t.pick((5, 3), (6, 4))
+        t.pick((5, 3), (7, 3))
     }
     fn variants(&self) -> Vec<u8> {
         (0..=10u8).filter(|v| sort_is_row(*v) == self.by_row).collect()
